@@ -129,3 +129,40 @@ func VerifC06CallArguments() {
 	}
 	verifAssert(np == len(call.Args) && nk == len(call.Keywords), "no argument dropped or invented")
 }
+
+// physical lines of any length are accepted: the length (around the reader's
+// buffer size) and the kind of padding are chosen symbolically
+//
+//verif:property C06 C11
+//verif:expect parsed
+//verif:maxsteps 40000000
+func VerifC06LongLines() {
+	lens := []int{100, 4090, 4095, 4096, 4097, 5000, 8200}
+	n := lens[verifChoice("len", len(lens))]
+	pad := make([]byte, n)
+	kind := verifChoice("kind", 3)
+	for i := range pad {
+		pad[i] = ' '
+		if kind == 2 {
+			pad[i] = 'a'
+		}
+	}
+	var src string
+	switch kind {
+	case 0:
+		src = "x = 1" + string(pad) + "\ny = 2\n"
+	case 1:
+		src = "x = 1 #" + string(pad) + "\ny = 2\n"
+	default:
+		src = "x = '" + string(pad) + "'\ny = 2\n"
+	}
+	tree, err := ParseString(src, py.ExecMode)
+	verifReach("parsed")
+	verifAssert(err == nil, "a long physical line is legal")
+	m, ok := tree.(*ast.Module)
+	verifAssert(ok && len(m.Body) == 2, "both statements are parsed")
+	if kind == 2 {
+		s, ok := m.Body[0].(*ast.Assign).Value.(*ast.Str)
+		verifAssert(ok && len(s.S) == n, "the long string literal keeps its full value")
+	}
+}
